@@ -458,10 +458,26 @@ def ctor_cases():
             for st in (P, Mi):
                 add(f"SYS from_single_intervals(parents {k1} / {k2},{st.name})",
                     lambda p1=p1, p2=p2, st=st: CompoundInterval.from_single_intervals([SingleInterval(0, 2, st, p1()), SingleInterval(4, 7, st, p2())]), must_refuse=k1 != k2)
+    # a refusal is not a one-off: the SAME object asked again refuses again (an undirected interval has no sequence to give)
+    def _again(mk, meth):
+        def run():
+            ob = mk()
+            try:
+                getattr(ob, meth)()
+            except Exception:  # noqa
+                pass
+            return getattr(ob, meth)()
+        return run
+
+    add("SYS second extract_sequence of an UNSTRANDED SingleInterval", _again(lambda: SingleInterval(0, 3, U, seqp()), "extract_sequence"), must_refuse=True)
+    add("SYS second extract_sequence of an UNSTRANDED CompoundInterval", _again(lambda: CompoundInterval([0, 4], [2, 6], U, seqp()), "extract_sequence"), must_refuse=True)
+    add("SYS second get_spliced_sequence of an UNSTRANDED feature", _again(lambda: FeatureInterval([0], [3], U, parent_or_seq_chunk_parent=chrom()), "get_spliced_sequence"), must_refuse=True)
     # a named parent and a parent WITHOUT a name are different parents for every operation that compares parents
     named = lambda: Parent(id="chr1", sequence_type="chromosome")
     nameless = lambda: Parent(sequence_type="chromosome")
-    for k1, p1, k2, p2 in (("named", named, "nameless", nameless), ("nameless", nameless, "named", named)):
+    with_seq = lambda: Parent(id="chr1", sequence_type="chromosome", sequence=Sequence("ACGTACGTAC", Alphabet.NT_STRICT, id="chr1", type="chromosome"))
+    for k1, p1, k2, p2 in (("named", named, "nameless", nameless), ("nameless", nameless, "named", named),
+                           ("named+sequence", with_seq, "named", named), ("named", named, "named+sequence", with_seq)):
         A_ = lambda p1=p1: SingleInterval(0, 5, P, p1())
         B_ = lambda p2=p2: SingleInterval(3, 8, P, p2())
         add(f"SYS union(parent {k1} / {k2})", lambda A_=A_, B_=B_: A_().union(B_()), must_refuse=True)
